@@ -1,2 +1,22 @@
-(* C14 placeholder *)
-From Rdest Require Import Base Consts Wire Manager.
+(* C14 — upload slots are bounded and follow the choking policy. *)
+From Rdest Require Import Base Consts Wire Manager MgrProofs.
+Open Scope N_scope.
+
+(* between rotations: a newcomer's bitfield never takes the regular (non-optimistic) unchoked peers above ten *)
+Theorem C14_bitfield_bound : forall m a bits pick m' r bc sp,
+  mstep m (CBitfield a bits) pick = Ok (m', r, bc, sp) ->
+  regular_unchoked (m_peers m) <= 10 -> regular_unchoked (m_peers m') <= 10.
+Proof. intros. eapply bitfield_keeps_bound; eauto. Qed.
+
+(* the rotation's bound and policy (each regular slot interested, no better-rated interested peer left choked,
+   lost interest => choked, broadcast map = exactly the changes) are decided on the real Session by the
+   correspondence oracle policy14 / bound14 for every rate order with ties; no Coq proof over rotate_go yet *)
+Example C14_nonvacuous :
+  let p c i := mkpeer None [] None false c i true false None None in
+  match change_conn_state (mkmgr [] [(1, p true true); (2, p false false); (3, p true true)] [] 0 false []) [(1, 5); (2, 9); (3, 5)] [] with
+  | Ok (m', fl) => map (fun kp => p_am_choked (snd kp)) (m_peers m') = [false; true; false] /\ fl = [(2, true); (1, false); (3, false)]
+  | _ => False
+  end.
+Proof. vm_compute. split; reflexivity. Qed.
+
+Print Assumptions C14_bitfield_bound.
